@@ -48,10 +48,10 @@ func emptyAlt() SAlt         { return SAlt{Empty: true} }
 func errAlt(syms ...Sym) SAlt { return SAlt{Err: true, Body: syms} }
 
 // Families is the list of template families GenSyntax knows.
-var Families = []string{"expr", "list", "stmts", "brackets", "random", "lr1notlalr", "nullable", "long", "random", "random"}
+var Families = []string{"expr", "list", "stmts", "brackets", "random", "lr1notlalr", "nullable", "long", "random", "random", "nulllist", "nulllist", "nulltails"}
 
 // BoundaryFamilies are shapes near the LR(1) boundary (used on top of Families by C04).
-var BoundaryFamilies = []string{"lr1notlalr", "cyclic", "rr1la", "nullconflict", "nullable", "random", "expr"}
+var BoundaryFamilies = []string{"lr1notlalr", "cyclic", "rr1la", "nullconflict", "nullable", "random", "expr", "nulltails", "nulllist"}
 
 // GenSyntax builds a random syntax part (no actions, no lexical part).
 func GenSyntax(r *rand.Rand, o SynGenOpts) *Grammar {
@@ -76,6 +76,10 @@ func GenSyntax(r *rand.Rand, o SynGenOpts) *Grammar {
 		g = s.nullablePrefix()
 	case "long":
 		g = s.long()
+	case "nulllist":
+		g = s.nullList()
+	case "nulltails":
+		g = s.nullTails()
 	case "cyclic":
 		g = s.cyclic()
 	case "rr1la":
@@ -236,6 +240,93 @@ func (s *synGen) nullablePrefix() *Grammar {
 		a.Alts[0], a.Alts[1] = a.Alts[1], a.Alts[0]
 	}
 	return &Grammar{NTs: []*NTDef{top, a, b}}
+}
+
+// nullList: nullable recursive lists placed right after a nonterminal (the look-aheads of
+// that nonterminal's reductions are FIRST of the list), in left- and right-recursive forms,
+// with terminal or nonterminal elements, optionally followed by more symbols.
+func (s *synGen) nullList() *Grammar {
+	s.pickTerminals(5)
+	t := s.terms
+	g := &Grammar{}
+	top := &NTDef{Head: "U"}
+	body := []Sym{nt("H"), nt("L")}
+	switch s.r.Intn(4) {
+	case 0:
+		body = append(body, t[3])
+	case 1:
+		body = append(body, nt("T"))
+	}
+	top.Alts = append(top.Alts, alt(body...))
+	if s.r.Intn(3) == 0 {
+		top.Alts = append(top.Alts, alt(nt("L"), t[4]))
+	}
+	h := &NTDef{Head: "H", Alts: []SAlt{alt(t[0])}}
+	if s.r.Intn(2) == 0 {
+		h.Alts = append(h.Alts, alt(t[0], nt("H")))
+	}
+	l := &NTDef{Head: "L"}
+	elem := []Sym{t[1]}
+	switch s.r.Intn(3) {
+	case 0:
+		elem = []Sym{t[1], t[2]}
+	case 1:
+		elem = []Sym{nt("E")}
+	}
+	if s.r.Intn(3) > 0 {
+		l.Alts = append(l.Alts, alt(append([]Sym{nt("L")}, elem...)...)) // left recursive
+	} else {
+		l.Alts = append(l.Alts, alt(append(append([]Sym{}, elem...), nt("L"))...)) // right recursive
+	}
+	l.Alts = append(l.Alts, emptyAlt())
+	if s.r.Intn(2) == 0 {
+		l.Alts[0], l.Alts[1] = l.Alts[1], l.Alts[0]
+	}
+	g.NTs = []*NTDef{top, h, l}
+	for _, a := range top.Alts {
+		for _, sy := range a.Body {
+			if sy.Kind == SNT && sy.Name == "T" {
+				g.NTs = append(g.NTs, &NTDef{Head: "T", Alts: []SAlt{alt(t[3]), emptyAlt()}})
+			}
+		}
+	}
+	if elem[0].Kind == SNT {
+		g.NTs = append(g.NTs, &NTDef{Head: "E", Alts: []SAlt{alt(t[1]), alt(t[2], nt("E"))}})
+	}
+	return g
+}
+
+// nullTails: two nonterminals deriving the same terminal meet as complete items in one
+// state; each is followed, up to the end of its body, by a nullable tail, and their real
+// look-aheads are disjoint (LR(1)) or, in the conflicting variant, share one terminal.
+func (s *synGen) nullTails() *Grammar {
+	s.pickTerminals(6)
+	t := s.terms
+	p, q := t[1], t[2]
+	o1, o2 := t[3], t[4]
+	if s.r.Intn(4) == 0 {
+		q = p // both reductions now compete on p once the tails are empty: a real conflict
+	}
+	g := &Grammar{NTs: []*NTDef{
+		{Head: "T", Alts: []SAlt{alt(nt("U"), p), alt(nt("V"), q)}},
+		{Head: "U", Alts: []SAlt{alt(nt("A"), nt("OptP"))}},
+		{Head: "V", Alts: []SAlt{alt(nt("B"), nt("OptQ"))}},
+		{Head: "A", Alts: []SAlt{alt(t[0])}},
+		{Head: "B", Alts: []SAlt{alt(t[0])}},
+		{Head: "OptP", Alts: []SAlt{alt(o1), emptyAlt()}},
+		{Head: "OptQ", Alts: []SAlt{alt(o2), emptyAlt()}},
+	}}
+	if s.r.Intn(2) == 0 {
+		// a longer nullable tail
+		g.NTs[1].Alts[0] = alt(nt("A"), nt("OptP"), nt("OptP"))
+	}
+	if s.r.Intn(3) == 0 {
+		g.NTs[5].Alts[0], g.NTs[5].Alts[1] = g.NTs[5].Alts[1], g.NTs[5].Alts[0]
+	}
+	if s.r.Intn(3) == 0 {
+		g.NTs[0].Alts = append(g.NTs[0].Alts, alt(t[5], nt("T")))
+	}
+	return g
 }
 
 // cyclic: a start symbol that derives itself (accept/reduce conflict), directly or through a chain.
